@@ -366,6 +366,17 @@ func (g *c14Graph) expand(s *c14State) {
 					}
 				}
 			}
+			for _, ro := range fn.results { // named results start at their zero value
+				if ro == nil {
+					continue
+				}
+				if k, ok := g.trackable(cc, ro); ok {
+					delete(m, k)
+					if v := c14ZeroVal(ro.Type()); v != 0 {
+						m[k] = v
+					}
+				}
+			}
 		})
 		g.link(s, g.at(cc, fn.g.Blocks[0], 0), st, c14Edge{kind: 'c'})
 		return
@@ -474,11 +485,26 @@ func (g *c14Graph) execPlain(s *c14State, st0 *c14Store, consumed func(map[strin
 			return
 		}
 		vals := g.returnVals(st0, ctx, ret)
+		fieldVals := map[int]map[*types.Var]int8{} // struct-valued results, field by field
+		if len(ret.Results) == ctx.fn.nres {
+			for i, e := range ret.Results {
+				if fv, ok := g.structVals(st0, ctx, e); ok {
+					fieldVals[i] = fv
+				}
+			}
+		}
 		st = st.with(func(m map[string]int8) {
 			c14Kill(m, fmt.Sprintf("v%d.", ctx.id))
 			for i, v := range vals {
 				if v != 0 {
 					m[c14RetKey(ctx, i)] = v
+				}
+			}
+			for i, fv := range fieldVals {
+				for f, v := range fv {
+					if v != 0 {
+						m[g.fkey(c14RetKey(ctx, i), f)] = v
+					}
 				}
 			}
 		})
@@ -495,6 +521,15 @@ func (g *c14Graph) returnVals(st *c14Store, ctx *c14Ctx, ret *ast.ReturnStmt) []
 	case len(ret.Results) == ctx.fn.nres:
 		for i, e := range ret.Results {
 			vals[i] = g.absval(st, ctx, e)
+		}
+	case len(ret.Results) == 0:
+		// bare return: the named results
+		for i, o := range ctx.fn.results {
+			if o != nil && i < len(vals) {
+				if k, ok := g.trackable(ctx, o); ok {
+					vals[i] = st.m[k]
+				}
+			}
 		}
 	case len(ret.Results) == 1:
 		if call, ok := ast.Unparen(ret.Results[0]).(*ast.CallExpr); ok {
